@@ -191,40 +191,39 @@ func (ts *tokens) Discharge(isPerm Predicate, tpLocation string, tpKey macaroon.
 		ubl     = ts.undischargedTicketsByLocation(isPerm)
 	)
 
-	for tLoc, tickets := range ubl {
-		tpErr := func(err error) error { return fmt.Errorf("location %s: %w", tLoc, err) }
+	tpErr := func(err error) error { return fmt.Errorf("location %s: %w", tpLocation, err) }
 
-		for _, ticket := range tickets {
-			tCavs, dm, err := macaroon.DischargeTicket(tpKey, tpLocation, ticket)
-			if err != nil {
-				merr = errors.Join(merr, tpErr(err))
-				continue
-			}
-
-			dmCavs, err := cb(tCavs)
-			if err != nil {
-				merr = errors.Join(merr, tpErr(err))
-				continue
-			}
-
-			if err := dm.Add(dmCavs...); err != nil {
-				merr = errors.Join(merr, tpErr(err))
-				continue
-			}
-
-			dmStr, err := dm.String()
-			if err != nil {
-				merr = errors.Join(merr, tpErr(err))
-				continue
-			}
-
-			dum := &UnverifiedMacaroon{
-				Str:       dmStr,
-				UnsafeMac: dm,
-			}
-
-			newDiss = append(newDiss, dum)
+	// only the tickets of the requested third party: tpKey cannot open the others
+	for _, ticket := range ubl[tpLocation] {
+		tCavs, dm, err := macaroon.DischargeTicket(tpKey, tpLocation, ticket)
+		if err != nil {
+			merr = errors.Join(merr, tpErr(err))
+			continue
 		}
+
+		dmCavs, err := cb(tCavs)
+		if err != nil {
+			merr = errors.Join(merr, tpErr(err))
+			continue
+		}
+
+		if err := dm.Add(dmCavs...); err != nil {
+			merr = errors.Join(merr, tpErr(err))
+			continue
+		}
+
+		dmStr, err := dm.String()
+		if err != nil {
+			merr = errors.Join(merr, tpErr(err))
+			continue
+		}
+
+		dum := &UnverifiedMacaroon{
+			Str:       dmStr,
+			UnsafeMac: dm,
+		}
+
+		newDiss = append(newDiss, dum)
 	}
 
 	if merr != nil {
